@@ -29,6 +29,10 @@ META_VALID = [
     ["new", "Word", 2, 4], ["new", "Word", 1, None, {"is_global": False}], ["new", "WordContains", "ab"],
     ["new", "WordStartsWith", ["list", "pre", "un"]], ["new", "WordEndsWith", "ing"], ["new", "Numeral", 16, 1, 4],
     ["new", "Numeral", 2], ["new", "Text"], ["new", "Whitespace"], ["new", "NonWhitespace"], ["new", "Text", True],
+    # class algebra at the two ends of the code-point range (chr(-1) / chr(0x110000) must never be computed)
+    ["op", "-", ["AnyBetween", "\x00", "z"], ["AnyFrom", "\x00"]], ["op", "-", ["AnyBetween", "\x00", "\x05"], ["AnyBetween", "\x00", "\x02"]],
+    ["op", "-", ["AnyBetween", "a", "\U0010ffff"], ["AnyFrom", "\U0010ffff"]], ["op", "|", ["AnyBetween", "\U0010fff0", "\U0010fffe"], ["AnyFrom", "\U0010ffff", "\x00"]],
+    ["op", "-", ["AnyBetween", "\x00", "\U0010ffff"], ["AnyFrom", "\x00", "\U0010ffff"]], ["op", "-", ["Any"], ["AnyFrom", "\x00", "\U0010ffff"]],
 ]
 META_INVALID = [
     ["new", "Integer", 5, 1], ["new", "Integer", "0", 5], ["new", "Integer", True, 5], ["new", "Integer", -1, 5],
@@ -37,6 +41,10 @@ META_INVALID = [
     ["new", "Word", "2"], ["new", "Word", True], ["new", "WordContains", 5], ["new", "Numeral", 1],
     ["new", "Numeral", 40], ["new", "Numeral", 10, 3, 2], ["new", "Numeral", "10"],
     ["new", "NegativeInteger", -3, 5], ["new", "WordStartsWith", ["list", "a", 5]],
+    # wrongly typed / unhashable elements of Date's format list (InvalidArgumentValueException is due for each)
+    ["new", "Date", ["list", ["list", "dd/mm/yyyy"]]], ["new", "Date", ["list", 5]], ["new", "Date", ["list", None, "dd/mm/yyyy"]],
+    ["new", "Date", ["list", 1.5]], ["new", "Date", ["list", "dd/mm/yyyy", ["list"]]], ["new", "Date", ["list", True]],
+    ["new", "Date", ["list", ["list", "d/m/yy", "yyyy/mm/dd"], "dd/mm/yyyy"]],
 ]
 BAD_ARGS = [5, None, 1.5, True, ["list", "a"]]
 LOOKBEHIND = ("PrecededBy", "preceded_by", "NotPrecededBy", "not_preceded_by", "EnclosedBy", "enclosed_by",
@@ -153,7 +161,11 @@ class Gen3(c20.Gen):
             # a quantified (not fixed-width) pattern as a lookbehind assertion: NonFixedWidthPatternException is due
             lit = r.choice([["lit", r.choice(["a", "ab", "x"])], ["named", "AnyDigit"], ["AnyFrom", "a", "b"], ["AnyFrom", "a", "\\"],
                             ["AnyBetween", "A", "\\"], ["AnyFrom", "]", "x"], ["AnyFrom", "[", "\\"], ["AnyFrom", "+", "*", "?"],
-                            ["AnyButFrom", "\\"], ["lit", "\\"], ["lit", "["]])
+                            ["AnyButFrom", "\\"], ["lit", "\\"], ["lit", "["],
+                            # literals that are escaped on emission: the quantifier then follows an escaped metacharacter
+                            ["lit", "("], ["lit", ")"], ["lit", "a("], ["lit", "(a"], ["lit", "{"], ["lit", "}"], ["lit", "."],
+                            ["lit", "$"], ["lit", "|"], ["lit", "?"], ["lit", "*"], ["lit", "+"], ["lit", "\\("], ["lit", "()"],
+                            ["lit", "^"], ["lit", "]"]])
             n = r.choice([2, 3, 5])
             q = r.choice([["new", "Optional", lit], ["new", "Indefinite", lit], ["new", "OneOrMore", lit], ["new", "AtLeast", lit, n],
                           ["new", "AtMost", lit, n], ["new", "AtMost", lit, None], ["new", "AtLeastAtMost", lit, 0, n],
